@@ -23,7 +23,7 @@ CHECK = dict(
     level_note="Trusted: regmodel (conforming registry incl. tag DELETE / 405, Link paging), the hand-written raw layout writer/reader (harness/c06/rawlayout.go), "
                "audit.LayoutProblems. Modelled, not asserted against (DESIGN C06 N): untagged root entries, unreferenced layout manifests (may exist until a Close "
                "collects them), which of several seeded entries for one tag the client resolves first, and — after a manifest delete — whether such a tag disappears "
-               "or falls to another seeded entry. Not covered: manifests with a subject (referrers are C10), registries without manifest DELETE, refs carrying tag and "
+               "or falls to another seeded entry. Known root causes are handled by narrow allowances: a step is judged strictly first; only if that fails and the raw index shows the trigger of one specific root cause is the step re-verified completely against a model containing exactly that cause's effect (e.g. a full-name entry left behind the pushed entry — the client must still report the pushed manifest); only a fully explained step carries the known signature, anything else keeps its own. While a cause is listed as known, batches touching its trigger run sequentially. Not covered: manifests with a subject (referrers are C10), registries without manifest DELETE, refs carrying tag and "
                "digest together, error kinds (only error vs success is judged).",
     assumptions=["the model registry is conforming: DELETE by digest removes the manifest and every tag pointing at it, DELETE by tag removes that tag only or answers 405, "
                  "tags/list is byte-sorted and paged with Link rel=next",
